@@ -151,4 +151,47 @@ example : Packet.marshal demo = 1 :: List.replicate 31 0 ++
     [7, 2, 1, 0, 3, 0, 2, 0, 1, 0, 1, 0, 2, 1, 3, 0, 0, 0, 1, 255, 255, 255, 255, 1, 2, 3] := by decide
 example : len (setLen 0x0003000200010001 5) = 5 ∧ position (setLen 0x0003000200010001 5) = 2 := by decide
 
+private theorem shr_small (n k : Nat) (hn : n < 2^16) (hk : 16 ≤ k) : n >>> k = 0 := by
+  rw [Nat.shiftRight_eq_div_pow]
+  apply Nat.div_eq_of_lt
+  calc n < 2^16 := hn
+    _ ≤ 2^k := Nat.pow_le_pow_right (by decide) hk
+
+/-- **The flag-bit operations leave the fragment fields alone**: `Flag.Set(n)` with a mask inside the
+16 flag bits changes no fragment-count, -position or -group field and ors the mask into the flag
+bits (it does not mark the packet as a fragment). -/
+theorem flag_set_fields (f n : Nat) (hn : n < 2^16) :
+    len (Flag.set f n) = len f ∧ position (Flag.set f n) = position f ∧ group (Flag.set f n) = group f ∧
+    bits (Flag.set f n) = bits f ||| n := by
+  unfold len position group bits Flag.set u16
+  refine ⟨?_, ?_, ?_, ?_⟩
+  · rw [Nat.shiftRight_or_distrib, shr_small n 48 hn (by decide), Nat.or_zero]
+  · rw [Nat.shiftRight_or_distrib, shr_small n 32 hn (by decide), Nat.or_zero]
+  · rw [Nat.shiftRight_or_distrib, shr_small n 16 hn (by decide), Nat.or_zero]
+  · rw [← Nat.and_two_pow_sub_one_eq_mod, ← Nat.and_two_pow_sub_one_eq_mod, Nat.and_or_distrib_right]
+    congr 1
+    rw [Nat.and_two_pow_sub_one_eq_mod]; exact Nat.mod_eq_of_lt hn
+
+/-- …and `Flag.Unset(n)` likewise: count, position and group are untouched, exactly the bits of the mask
+that were set are cleared. -/
+theorem flag_unset_fields (f n : Nat) (hn : n < 2^16) :
+    len (unset f n) = len f ∧ position (unset f n) = position f ∧ group (unset f n) = group f ∧
+    bits (unset f n) = bits f - (bits f &&& n) ∧ bits (unset f n) ≤ bits f := by
+  have hx : f &&& n = (f % 2^16) &&& n := by
+    have h1 : f &&& n < 2^16 := Nat.lt_of_le_of_lt Nat.and_le_right hn
+    have h2 := Nat.and_mod_two_pow (a := f) (b := n) (n := 16)
+    rw [Nat.mod_eq_of_lt h1, Nat.mod_eq_of_lt hn] at h2
+    exact h2
+  have hle : (f % 2^16) &&& n ≤ f % 2^16 := Nat.and_le_left
+  have hlo : f % 2^16 < 2^16 := Nat.mod_lt _ (by decide)
+  have hdiv : (f - (f &&& n)) / 2^16 = f / 2^16 := by rw [hx]; omega
+  have hmod : (f - (f &&& n)) % 2^16 = f % 2^16 - ((f % 2^16) &&& n) := by rw [hx]; omega
+  have hs : ∀ k, 16 ≤ k → (f - (f &&& n)) >>> k = f >>> k := by
+    intro k hk
+    obtain ⟨j, rfl⟩ : ∃ j, k = 16 + j := ⟨k - 16, by omega⟩
+    rw [Nat.shiftRight_add, Nat.shiftRight_add, Nat.shiftRight_eq_div_pow _ 16, Nat.shiftRight_eq_div_pow f 16, hdiv]
+  unfold len position group bits unset u16
+  refine ⟨by rw [hs 48 (by decide)], by rw [hs 32 (by decide)], by rw [hs 16 (by decide)], hmod, ?_⟩
+  rw [hmod]; omega
+
 end XMT.Props.C01
